@@ -70,28 +70,28 @@ package transform
 //@   unchecked frame fresh protobuf messages are written
 //@   ensures len(converted) == len(vals)
 //@   assert@store elem#* : $val != nil && typeis($val.Value, "*cpb.AnyValue_BoolValue") && cast($val.Value, "*cpb.AnyValue_BoolValue").BoolValue == vals[i] && 0 <= i && i < len(vals)
-//@   loop#1 invariant len(converted) == len(vals) && fresh(converted)
+//@   loop#1 invariant len(converted) == len(vals) && fresh(converted) && 0 <= i && i <= len(vals)
 //@ func int64SliceValues(vals []int64) (converted []*cpb.AnyValue)
 //@   prop C13
 //@   overflow assumed
 //@   unchecked frame fresh protobuf messages are written
 //@   ensures len(converted) == len(vals)
 //@   assert@store elem#* : $val != nil && typeis($val.Value, "*cpb.AnyValue_IntValue") && cast($val.Value, "*cpb.AnyValue_IntValue").IntValue == vals[i] && 0 <= i && i < len(vals)
-//@   loop#1 invariant len(converted) == len(vals) && fresh(converted)
+//@   loop#1 invariant len(converted) == len(vals) && fresh(converted) && 0 <= i && i <= len(vals)
 //@ func float64SliceValues(vals []float64) (converted []*cpb.AnyValue)
 //@   prop C13
 //@   overflow assumed
 //@   unchecked frame fresh protobuf messages are written
 //@   ensures len(converted) == len(vals)
 //@   assert@store elem#* : $val != nil && typeis($val.Value, "*cpb.AnyValue_DoubleValue") && cast($val.Value, "*cpb.AnyValue_DoubleValue").DoubleValue === vals[i] && 0 <= i && i < len(vals)
-//@   loop#1 invariant len(converted) == len(vals) && fresh(converted)
+//@   loop#1 invariant len(converted) == len(vals) && fresh(converted) && 0 <= i && i <= len(vals)
 //@ func stringSliceValues(vals []string) (converted []*cpb.AnyValue)
 //@   prop C13
 //@   overflow assumed
 //@   unchecked frame fresh protobuf messages are written
 //@   ensures len(converted) == len(vals)
 //@   assert@store elem#* : $val != nil && typeis($val.Value, "*cpb.AnyValue_StringValue") && cast($val.Value, "*cpb.AnyValue_StringValue").StringValue == vals[i] && 0 <= i && i < len(vals)
-//@   loop#1 invariant len(converted) == len(vals) && fresh(converted)
+//@   loop#1 invariant len(converted) == len(vals) && fresh(converted) && 0 <= i && i <= len(vals)
 
 // AttrValue: the oneof kind follows the attribute's type; scalars carry exactly the attribute's value; anything else is the string "INVALID"
 //@ func AttrValue(v attribute.Value) (av *cpb.AnyValue)
